@@ -905,6 +905,7 @@ package ro
 //@   track destination.* subscriptions.*
 //@   ensures [a-drained-source-completes-the-output|C05,C09] len(old(values)) == 0 ==> trace(destination.CompleteWithContext(ctx), subscriptions.Unsubscribe())
 //@   ensures [a-finished-source-with-queued-values-keeps-the-others-subscribed|C05] len(old(values)) > 0 ==> trace()
+//@   ensures [the-completion-waits-for-the-tuple-being-delivered|C05] heldat(muEmit, destination.CompleteWithContext) && notheldat(mu, destination.CompleteWithContext)
 
 //@ func zipInnerSubscription$2
 //@   note the error callback of one zipped source: the error ends the output at once and releases every source
@@ -944,6 +945,7 @@ package ro
 //@   props C05 C04
 //@   binds ctx valueA valueB destination completedA completedB
 //@   track destination.*
+//@   ensures [take-and-delivery-are-one-step-for-the-other-sources|C05] heldat(muEmit, destination.ANY) && notheldat(mu, destination.ANY)
 //@   ensures [no-tuple-until-every-queue-has-a-value|C05] !(len(old(valueA)) > 0 && len(old(valueB)) > 0) ==> trace()
 //@   ensures [a-tuple-is-emitted-when-every-queue-has-a-value|C05] len(old(valueA)) > 0 && len(old(valueB)) > 0 ==> count(destination.NextWithContext) == 1 && arg(destination.NextWithContext, 0) == ctx
 //@   ensures [pops-exactly-the-heads|C05] len(old(valueA)) > 0 && len(old(valueB)) > 0 ==> len(valueA) == len(old(valueA)) - 1 && len(valueB) == len(old(valueB)) - 1
@@ -954,6 +956,7 @@ package ro
 //@   props C05 C04
 //@   binds ctx valueA valueB valueC destination completedA completedB completedC
 //@   track destination.*
+//@   ensures [take-and-delivery-are-one-step-for-the-other-sources|C05] heldat(muEmit, destination.ANY) && notheldat(mu, destination.ANY)
 //@   ensures [no-tuple-until-every-queue-has-a-value|C05] !(len(old(valueA)) > 0 && len(old(valueB)) > 0 && len(old(valueC)) > 0) ==> trace()
 //@   ensures [a-tuple-is-emitted-when-every-queue-has-a-value|C05] len(old(valueA)) > 0 && len(old(valueB)) > 0 && len(old(valueC)) > 0 ==> count(destination.NextWithContext) == 1 && arg(destination.NextWithContext, 0) == ctx
 //@   ensures [pops-exactly-the-heads|C05] len(old(valueA)) > 0 && len(old(valueB)) > 0 && len(old(valueC)) > 0 ==> len(valueA) == len(old(valueA)) - 1 && len(valueB) == len(old(valueB)) - 1 && len(valueC) == len(old(valueC)) - 1
@@ -964,6 +967,7 @@ package ro
 //@   props C05 C04
 //@   binds ctx valueA valueB valueC valueD destination completedA completedB completedC completedD
 //@   track destination.*
+//@   ensures [take-and-delivery-are-one-step-for-the-other-sources|C05] heldat(muEmit, destination.ANY) && notheldat(mu, destination.ANY)
 //@   ensures [no-tuple-until-every-queue-has-a-value|C05] !(len(old(valueA)) > 0 && len(old(valueB)) > 0 && len(old(valueC)) > 0 && len(old(valueD)) > 0) ==> trace()
 //@   ensures [a-tuple-is-emitted-when-every-queue-has-a-value|C05] len(old(valueA)) > 0 && len(old(valueB)) > 0 && len(old(valueC)) > 0 && len(old(valueD)) > 0 ==> count(destination.NextWithContext) == 1 && arg(destination.NextWithContext, 0) == ctx
 //@   ensures [pops-exactly-the-heads|C05] len(old(valueA)) > 0 && len(old(valueB)) > 0 && len(old(valueC)) > 0 && len(old(valueD)) > 0 ==> len(valueA) == len(old(valueA)) - 1 && len(valueB) == len(old(valueB)) - 1 && len(valueC) == len(old(valueC)) - 1 && len(valueD) == len(old(valueD)) - 1
@@ -974,6 +978,7 @@ package ro
 //@   props C05 C04
 //@   binds ctx valueA valueB valueC valueD valueE destination completedA completedB completedC completedD completedE
 //@   track destination.*
+//@   ensures [take-and-delivery-are-one-step-for-the-other-sources|C05] heldat(muEmit, destination.ANY) && notheldat(mu, destination.ANY)
 //@   ensures [no-tuple-until-every-queue-has-a-value|C05] !(len(old(valueA)) > 0 && len(old(valueB)) > 0 && len(old(valueC)) > 0 && len(old(valueD)) > 0 && len(old(valueE)) > 0) ==> trace()
 //@   ensures [a-tuple-is-emitted-when-every-queue-has-a-value|C05] len(old(valueA)) > 0 && len(old(valueB)) > 0 && len(old(valueC)) > 0 && len(old(valueD)) > 0 && len(old(valueE)) > 0 ==> count(destination.NextWithContext) == 1 && arg(destination.NextWithContext, 0) == ctx
 //@   ensures [pops-exactly-the-heads|C05] len(old(valueA)) > 0 && len(old(valueB)) > 0 && len(old(valueC)) > 0 && len(old(valueD)) > 0 && len(old(valueE)) > 0 ==> len(valueA) == len(old(valueA)) - 1 && len(valueB) == len(old(valueB)) - 1 && len(valueC) == len(old(valueC)) - 1 && len(valueD) == len(old(valueD)) - 1 && len(valueE) == len(old(valueE)) - 1
@@ -984,6 +989,7 @@ package ro
 //@   props C05 C04
 //@   binds ctx valueA valueB valueC valueD valueE valueF destination completedA completedB completedC completedD completedE completedF
 //@   track destination.*
+//@   ensures [take-and-delivery-are-one-step-for-the-other-sources|C05] heldat(muEmit, destination.ANY) && notheldat(mu, destination.ANY)
 //@   ensures [no-tuple-until-every-queue-has-a-value|C05] !(len(old(valueA)) > 0 && len(old(valueB)) > 0 && len(old(valueC)) > 0 && len(old(valueD)) > 0 && len(old(valueE)) > 0 && len(old(valueF)) > 0) ==> trace()
 //@   ensures [a-tuple-is-emitted-when-every-queue-has-a-value|C05] len(old(valueA)) > 0 && len(old(valueB)) > 0 && len(old(valueC)) > 0 && len(old(valueD)) > 0 && len(old(valueE)) > 0 && len(old(valueF)) > 0 ==> count(destination.NextWithContext) == 1 && arg(destination.NextWithContext, 0) == ctx
 //@   ensures [pops-exactly-the-heads|C05] len(old(valueA)) > 0 && len(old(valueB)) > 0 && len(old(valueC)) > 0 && len(old(valueD)) > 0 && len(old(valueE)) > 0 && len(old(valueF)) > 0 ==> len(valueA) == len(old(valueA)) - 1 && len(valueB) == len(old(valueB)) - 1 && len(valueC) == len(old(valueC)) - 1 && len(valueD) == len(old(valueD)) - 1 && len(valueE) == len(old(valueE)) - 1 && len(valueF) == len(old(valueF)) - 1
@@ -1258,3 +1264,22 @@ package ro
 //@   ensures [the-timer-is-armed-with-the-initial-delay|C16] count(call.NewTimer) == 1 && arg(call.NewTimer, 0) == initial
 //@   ensures [an-initial-delay-of-zero-emits-the-first-value-at-once|C16] initial == 0 ==> count(destination.NextWithContext) == 1 && arg(destination.NextWithContext, 0) == ctx && arg(destination.NextWithContext, 1) == 0
 //@   ensures [a-positive-initial-delay-emits-nothing-before-the-timer|C16] initial > 0 ==> count(destination.NextWithContext) == 0
+
+//@ func zipAllInnerSubscriptions$2
+//@   note onUpdate of ZipAll / Zip: as the onUpdate of ZipWith1, over a slice of queues; whatever it delivers is delivered under the emit lock, which orders the deliveries of the sources' goroutines, and outside the state lock, which the teardown takes
+//@   props C05
+//@   binds ctx destination
+//@   maypanic
+//@   trusted nopanic/index : the queues are indexed in range because len(values) == len(sources) and hasEmptyQueue() just reported every queue non-empty under the same lock; not proved here (quantified facts about a slice of slices)
+//@   track destination.* loop.*
+//@   ensures [take-and-delivery-are-one-step-for-the-other-sources|C05] heldat(muEmit, destination.ANY) && notheldat(mu, destination.ANY)
+//@   ensures [at-most-one-tuple-per-update|C05] count(destination.NextWithContext) <= 1
+
+//@ loop zipAllInnerSubscriptions$2#0
+//@   iteration emits
+
+//@ loop zipAllInnerSubscriptions$2#1
+//@   iteration emits
+
+//@ loop zipAllInnerSubscriptions$1#0
+//@   iteration emits
